@@ -946,6 +946,7 @@ func (v *Verifier) VerifyFunction(fn *ssa.Function, fc *FuncContract) (err error
 		}
 	}
 	v.entry = st.clone()
+	v.topClo = clo
 	v.vacuity(st, "entry of "+funcRef(fn))
 	exits := v.runFunc(fn, st, args, clo)
 	for _, e := range exits {
